@@ -3,6 +3,7 @@
 //! `harness impl  < cases`  — one canonical observation line per request line
 //!                            (same request language as the Lean driver).
 //! `harness prop  < cases`  — evaluates the property itself on the implementation.
+mod c15;
 mod codec;
 mod curve;
 mod curveprop;
@@ -78,6 +79,7 @@ fn dispatch_prop(toks: &[&str]) -> String {
         .or_else(|| sections::dispatch_prop(toks))
         .or_else(|| hitobj::dispatch_prop(toks))
         .or_else(|| whole::dispatch_prop(toks))
+        .or_else(|| c15::dispatch_prop(toks))
         .or_else(|| events::dispatch_prop(toks))
         .unwrap_or_else(|| "SKIP no-oracle".to_owned())
 }
